@@ -85,28 +85,16 @@ def run(ctx):
             a, b = vals[o["i"] - 1], vals[o["j"] - 1]
             vlib.violation(ctx, "equality use did not yield a boolean for %s , %s: %s" % (describe(a), describe(b), o["problems"][:2]), {"kind": "eq-problem", "a": a, "b": b, "obs": o})
     todo = [o for o in obs if not o.get("problems")]
-    nviol = 0
-    sample_done = False
-    # TLC validates; after a rejection the remaining lines are still checked (the rejected one is removed)
-    while todo and nviol < 25:
-        vlib.write_ndjson(obsp, todo)
-        reached, total, r = validate(ctx, poolp, obsp)
-        ctx.cov["states"] += r.distinct
-        ctx.cov["transitions"] += r.generated
-        if not sample_done:
-            o = todo[min(len(todo) - 1, 200)]
-            ctx.sample({"a": describe(vals[o["i"] - 1]), "b": describe(vals[o["j"] - 1]), "observed": {k: o[k] for k in ("eq", "req", "ne", "inn", "sw", "lege", "feq")}})
-            sample_done = True
-        if reached == total + 1:
-            ctx.cov["traces_validated_against_impl"] += total
-            break
-        bad = todo[reached - 1]
-        ctx.cov["traces_validated_against_impl"] += reached - 1
+    vlib.write_ndjson(obsp, todo)
+    rej, total, r = vlib.validate_lines(ctx, "Trace_AnkoEq", "Trace_AnkoEq.cfg", [poolp, obsp])
+    ctx.cov["traces_validated_against_impl"] += total - len(rej)
+    o = todo[min(len(todo) - 1, 200)]
+    ctx.sample({"a": describe(vals[o["i"] - 1]), "b": describe(vals[o["j"] - 1]), "observed": {k: o[k] for k in ("eq", "req", "ne", "inn", "sw", "lege", "feq")}})
+    for ln in rej[:25]:
+        bad = todo[ln - 1]
         a, b = vals[bad["i"] - 1], vals[bad["j"] - 1]
-        nviol += 1
         vlib.violation(ctx, "equality observation rejected by AnkoEq for a=%s b=%s: %s" % (describe(a), describe(b), {k: bad[k] for k in ("eq", "req", "ne", "rne", "inn", "rinn", "sw", "rsw", "lege", "feq")}),
                        {"kind": "eq", "a": a, "b": b, "obs": bad, "finding_key": finding_key(a, b, bad)})
-        todo = todo[reached:]
     ctx.cov["evaluations"] += len(obs) * 10
     ctx.cov["distinct_nontrivial"] += len(obs)
     ctx.cov["pool_size"] = len(vals)
@@ -114,8 +102,8 @@ def run(ctx):
     if not ctx.violations:
         o = dict(obs[5]); o["ne"] = not o["ne"]
         vlib.write_ndjson(obsp, obs[:5] + [o])
-        reached, total, r = validate(ctx, poolp, obsp)
-        ok = reached == 6
+        rej, total, r = vlib.validate_lines(ctx, "Trace_AnkoEq", "Trace_AnkoEq.cfg", [poolp, obsp])
+        ok = rej == [6]
         ctx.cov["controls"].append({"control": "observation with a != b altered must be rejected", "detected": ok})
         if not ok:
             raise Broken("corruption control failed")
@@ -136,8 +124,8 @@ def replay(ctx, path):
     obs = [o for o in vlib.read_ndjson(obsp) if o["i"] == 1 and o["j"] == 2]
     print(json.dumps(obs))
     vlib.write_ndjson(obsp, obs)
-    reached, total, r = validate(ctx, poolp, obsp)
-    bad = reached != total + 1 or bool(obs[0].get("problems"))
+    rej, total, r = vlib.validate_lines(ctx, "Trace_AnkoEq", "Trace_AnkoEq.cfg", [poolp, obsp])
+    bad = bool(rej) or bool(obs[0].get("problems"))
     if bad:
         print("VIOLATION property=%s replay=%s" % (ctx.id, path))
     return 1 if bad else 0
